@@ -100,6 +100,7 @@ func c01R1(ic *IC, r *Report) {
 	}
 	push := map[string]token.Pos{}
 	pop := map[string]token.Pos{}
+	var earlyExits []string
 	ast.Inspect(fi.Decl.Body, func(n ast.Node) bool {
 		sw, ok := n.(*ast.SwitchStmt)
 		if !ok || sw.Tag == nil {
@@ -145,6 +146,78 @@ func c01R1(ic *IC, r *Report) {
 					return true
 				})
 			}
+			// a case that pops does so on every path that is not an error abort: no return or
+			// break leaves the case before the pop, unless it is guarded by the pass's error
+			if pops {
+				var popPos token.Pos
+				for _, s := range cc.Body {
+					ast.Inspect(s, func(m ast.Node) bool {
+						if as, ok := m.(*ast.AssignStmt); ok && len(as.Rhs) == 1 && popPos == token.NoPos {
+							if call, ok := unparen(as.Rhs[0]).(*ast.CallExpr); ok && isCallTo(ic.Info, call, "interp.scope.pop") {
+								popPos = as.Pos()
+							}
+						}
+						return true
+					})
+				}
+				for _, s := range cc.Body {
+					if s.Pos() >= popPos {
+						break
+					}
+					var walk func(n ast.Node, guardedByErr bool, breakable bool)
+					walk = func(n ast.Node, guardedByErr bool, breakable bool) {
+						switch x := n.(type) {
+						case nil:
+							return
+						case *ast.FuncLit:
+							return
+						case *ast.IfStmt:
+							g := guardedByErr
+							ast.Inspect(x.Cond, func(k ast.Node) bool {
+								if id, ok := k.(*ast.Ident); ok && isErrorType(ic.Info.TypeOf(id)) {
+									g = true
+								}
+								return true
+							})
+							if x.Init != nil {
+								ast.Inspect(x.Init, func(k ast.Node) bool {
+									if id, ok := k.(*ast.Ident); ok && isErrorType(ic.Info.TypeOf(id)) {
+										g = true
+									}
+									return true
+								})
+							}
+							walk(x.Body, g, breakable)
+							if x.Else != nil {
+								walk(x.Else, g, breakable)
+							}
+						case *ast.BlockStmt:
+							for _, st := range x.List {
+								walk(st, guardedByErr, breakable)
+							}
+						case *ast.ForStmt:
+							walk(x.Body, guardedByErr, false)
+						case *ast.RangeStmt:
+							walk(x.Body, guardedByErr, false)
+						case *ast.SwitchStmt:
+							for _, st := range x.Body.List {
+								for _, b := range st.(*ast.CaseClause).Body {
+									walk(b, guardedByErr, false)
+								}
+							}
+						case *ast.ReturnStmt:
+							if !guardedByErr && x.Pos() < popPos {
+								earlyExits = append(earlyExits, fmt.Sprintf("%s: return at %s before the scope is popped", strings.Join(labels, ","), ic.pos(x.Pos())))
+							}
+						case *ast.BranchStmt:
+							if x.Tok == token.BREAK && breakable && !guardedByErr && x.Pos() < popPos {
+								earlyExits = append(earlyExits, fmt.Sprintf("%s: break at %s before the scope is popped", strings.Join(labels, ","), ic.pos(x.Pos())))
+							}
+						}
+					}
+					walk(s, false, true)
+				}
+			}
 			for _, l := range labels {
 				if pushes {
 					push[l] = cc.Pos()
@@ -163,6 +236,8 @@ func c01R1(ic *IC, r *Report) {
 		r.Errorf("R01.1: found %d pushing and %d popping node kinds in (*Interpreter).cfg", len(push), len(pop))
 		return
 	}
+	r.Check(len(earlyExits) == 0, "R01.1", "cfg/scope-popped-on-every-path", ic.pos(fi.Decl.Pos()), "no post-order case leaves before popping its scope (error aborts excepted)",
+		strings.Join(earlyExits, "; ")+": the scope of that construct stays on the stack, so the identifiers of the enclosing function remain visible to the code that follows (an undefined identifier is not reported) and frame indexes shift")
 	all := map[string]bool{}
 	for k := range push {
 		all[k] = true
@@ -308,10 +383,71 @@ func c01R3(ic *IC, r *Report) {
 		insts = append(insts, inst{f, as, enclosingPath(cfgFn.Decl.Body, as)})
 		return true
 	})
+	// the copy-back class: a generator that allocates nothing and sets one frame slot from
+	// another (the loop variable takes the value of the body's copy before the post statement)
+	isBack := func(f *types.Func) bool {
+		fi := ic.G.Funcs[f]
+		if fi == nil || fi.Decl.Body == nil {
+			return false
+		}
+		if len(callsIn(ic.Info, fi.Decl.Body, true, "reflect.New")) > 0 {
+			return false
+		}
+		found := false
+		for _, c := range callsIn(ic.Info, fi.Decl.Body, true, "reflect.Value.Set") {
+			slot := func(e ast.Expr) bool {
+				ix, ok := unparen(e).(*ast.IndexExpr)
+				if !ok {
+					return false
+				}
+				v := selField(ic.Info, ix.X)
+				iv := selField(ic.Info, ix.Index)
+				return v != nil && v.Name() == "data" && iv != nil && iv.Name() == "findex"
+			}
+			if se, ok := unparen(c.Fun).(*ast.SelectorExpr); ok && len(c.Args) == 1 && slot(se.X) && slot(c.Args[0]) {
+				found = true
+			}
+		}
+		return found
+	}
+	var backs []inst
+	{
+		var ins []inst
+		for _, in := range insts {
+			if isBack(in.gen) {
+				backs = append(backs, in)
+			} else {
+				ins = append(ins, in)
+			}
+		}
+		insts = ins
+	}
 	if len(insts) < 3 {
 		// role fallback: generators whose closure stores a reflect.New value into f.data[n.findex]
 		r.Errorf("R01.3: %d installations of per-iteration loop-variable generators found in cfg (range key, range value, 3-clause for expected)", len(insts))
 		return
+	}
+	// the 3-clause for statement has a post statement that works on the loop variable itself:
+	// the body's copy must flow back before it. The copy-back is installed in a case of the
+	// for statement with init, condition and post, on a node both the end of the body and a
+	// continue statement reach.
+	{
+		okBack := false
+		where := ""
+		for _, b := range backs {
+			for _, p := range b.path {
+				if cc, ok := p.(*ast.CaseClause); ok {
+					for _, e := range cc.List {
+						if id, ok := unparen(e).(*ast.Ident); ok && id.Name == "forStmt7" {
+							okBack = true
+							where = ic.pos(b.as.Pos())
+						}
+					}
+				}
+			}
+		}
+		r.Check(okBack, "R01.3", "cfg/forStmt7/copy-back-before-post", ic.pos(cfgFn.Decl.Pos()), "the loop variable takes the value of the body's per-iteration copy before the post statement ("+where+")",
+			"cfg gives the body of `for i := ...; cond; post` a per-iteration copy of the loop variable but installs no generator that copies the value back before the post statement: assignments to the loop variable made by the body (if skip { i++ }, i += 2) are lost, the post statement works on the stale value")
 	}
 	walk := ic.F["node.Walk"]
 	reachesWalk := func(e ast.Node) string {
